@@ -475,7 +475,7 @@ func runCond(raw json.RawMessage) (res *Result, err error) {
 // generators
 
 var condKwPool = []string{"k", "cn", "uid", "x y", "", "é"}
-var condTextPool = []string{"v", "val ue", "a\tb", "日本", "0", "(x)"}
+var condTextPool = []string{"v", "val ue", "a\tb", "日本", "0", "(x)", "\"Jesse\"", "'s'", "<v>", "[w]", "\"", "''", "back\\", "\\"}
 
 type condGen struct {
 	r      *Rng
@@ -525,6 +525,9 @@ func (g *condGen) stack() *Node {
 	}
 	if g.r.Pct(30) {
 		n.Opt |= 1
+	}
+	if g.r.Pct(15) {
+		n.PreErr = true // the Stack carries an error of its own: still a Stack
 	}
 	return n
 }
@@ -736,6 +739,23 @@ func genCond(ctx *Ctx, emit func(any, string)) {
 	// and every single call on the zero Condition{}
 	for _, o := range alpha {
 		emit(CondInput{Ops: cloneOps([]COp{o, alpha[3], alpha[5], alpha[8]})}, "exhaustive")
+	}
+	// every encapsulation scheme around texts that already begin and end with
+	// its strings: each level is applied, whatever the text looks like
+	for _, enc := range [][]EncArg{{{K: "str", L: []string{"\""}}}, {{K: "str", L: []string{"'"}}}, {{K: "slice", L: []string{"<", ">"}}},
+		{{K: "slice", L: []string{"[", "]"}}}, {{K: "str", L: []string{"\""}}, {K: "slice", L: []string{"<", ">"}}}, {{K: "slice", L: []string{"'"}}}} {
+		for _, text := range condTextPool {
+			emit(CondInput{Ops: cloneOps([]COp{{Op: "cond", Kw: &KwArg{K: "str", S: "person"}, Opr: &OpDesc{Builtin: 1}, Ex: &Node{T: "str", S: text}},
+				{Op: "encap", Enc: enc}, {Op: "paren", T: 1}})}, "exhaustive")
+		}
+	}
+	// Stacks that carry an error (native, alias, pointer to alias) offered while no-nesting is on
+	for _, a := range []string{"", "aval", "aptr", "avalstr", "aptrstr"} {
+		for _, nn := range []int{1, 2} {
+			errStack := &Node{T: "stack", Kind: "OR", A: a, PreErr: true, Els: []*Node{{T: "str", S: "held"}}}
+			emit(CondInput{Ops: cloneOps([]COp{{Op: "cond", Kw: &KwArg{K: "str", S: "k"}, Opr: &OpDesc{Builtin: 1}, Ex: &Node{T: "str", S: "before"}},
+				{Op: "nonest", T: nn}, {Op: "setex", Ex: errStack}, {Op: "nonest", T: 0}, {Op: "setex", Ex: errStack}})}, "exhaustive")
+		}
 	}
 	n := ctx.N(1200, 40000)
 	for i := 0; i < n; i++ {
